@@ -92,21 +92,21 @@ def main():
     thorough = vf.tier() == "thorough"
     cases, res = vf.mc_cases(chk, "MC_C09", actions=["AnalyzeTrait", "GenTraitDef"], workers=12, heap="12g")
     rng = random.Random(vf.seed())
-    if thorough:
-        sel = cases
-    else:
-        small = [c for c in cases if len(c["comps"]) <= 2]
-        full = [c for c in cases if len(c["comps"]) >= 11]
-        rest = [c for c in cases if 2 < len(c["comps"]) < 11]
-        rng.shuffle(rest)
-        sel = small + full + rest[:1500]
+    small = [c for c in cases if len(c["comps"]) <= 2]
+    full = [c for c in cases if len(c["comps"]) >= 11]
+    rest = [c for c in cases if 2 < len(c["comps"]) < 11]
+    rng.shuffle(rest)
+    # (thorough: TLC has model-checked every component set; one crate of all of them no longer type-checks within the hour,
+    #  so the replay takes every small and every (nearly) full set plus a seeded 15 000 of the others)
+    sel = small + full + rest[:(15000 if thorough else 1500)]
+    chk.cov["component_sets_model_checked"] = len(cases)
     crate = vf.Crate(os.path.join(chk.work, "crate"), "c09cases", deps=["async-trait"])
     for c in sel:
         crate.add_case(c["case"], render(c))
     crate.write_root(None)
     dump = os.path.join(chk.work, "dump")
     subprocess.run(["cargo", "check", "--offline", "--message-format=json"], cwd=crate.root, env=vf.cargo_env(dump),
-                   capture_output=True, text=True, timeout=1800)
+                   capture_output=True, text=True, timeout=(5400 if thorough else 1800))
     allf = dump + "-all"
     with open(allf, "w") as o:
         for f in sorted(glob.glob(dump + ".*")):
@@ -135,7 +135,7 @@ def main():
     chk.cov["rule"] = ("every subset of 13 trait components {doc (every second case additionally as inner doc + inner lint attribute), lint attribute, pub, unsafe, generics (6 shapes: type / const-before-type / lifetime / defaulted / all / two lifetimes with an outlives where-predicate), supertrait, where, default body, "
                        "associated type, method doc/attribute, method cfg, async methods, second method} x 8 trait-mode option sets; quick: all "
                        "subsets of size <= 2 and >= 11 plus 1500 seeded others; non-trivial = expanded and at least one component")
-    chk.cov["exhaustive"] = bool(thorough)
+    chk.cov["exhaustive"] = False      # (the model check is exhaustive over the component sets; the replay is a seeded sample in both tiers)
     vf.report_drift(chk, drift, lambda d: f"comps={byid[d['case']]['comps']} opt={byid[d['case']]['opt']} errors={ev[d['case']]['errors']}")
     chk.cov["samples"] = [{"comps": c["comps"], "gk": c["gk"], "opt": c["opt"], "emitted_attrs": [a["text"] for a in ev[c["case"]]["o"]["attrs"]]}
                           for c in sel[:: max(1, len(sel) // 4)][:4]]
